@@ -30,6 +30,8 @@ pub mod refchecks;
 pub mod c41;
 pub mod c42;
 pub mod c43;
+pub mod c44;
+pub mod c45;
 pub mod c46;
 pub mod c47;
 pub mod c48;
@@ -51,6 +53,8 @@ pub fn dispatch(id: &str, args: &[String]) -> ! {
         "C12" => c12::run(args),
         "C14" => c14::run(args),
         "C43" => c43::run(args),
+        "C44" => c44::run(args),
+        "C45" => c45::run(args),
         "C46" => c46::run(args),
         "C47" => c47::run(args),
         "C48" => c48::run(args),
